@@ -60,6 +60,11 @@ const (
 	// two sends of one message by one node to one peer closer than this are one
 	// window for sure (a forwarding round may take seconds: relayed sends)
 	c38SendWindow = 30 * time.Second
+	// how long before a forwarding round a connection change still explains that
+	// the peer moved between the lists during the round
+	c38StaleWindow = 30 * time.Second
+	// period of the list-disjointness sampler
+	c38SamplePeriod = 100 * time.Millisecond
 )
 
 type c38Captured struct {
@@ -78,14 +83,15 @@ type c38Key struct {
 }
 
 type c38World struct {
-	r      *gosim.Run
-	c      *c28Cluster
-	window time.Duration
-	mu     sync.Mutex
-	svc    []*multicast.Service // current incarnation per node
-	last   map[c38Key]time.Duration
-	seen   map[c38Key]bool
-	caps   []c38Captured
+	r                *gosim.Run
+	c                *c28Cluster
+	window           time.Duration
+	mu               sync.Mutex
+	svc              []*multicast.Service // current incarnation per node
+	last             map[c38Key]time.Duration
+	began            map[c38Key]time.Duration // when the stream of the last send was requested
+	seen             map[c38Key]bool
+	caps             []c38Captured
 	defClass, defMsg string
 	// moved[a][b]: when the connection between a and b last changed (dropped,
 	// dialled, reset). One forwarding round walks the connected and then the kept
@@ -125,7 +131,7 @@ func (s *c38SubPub) PublishArray(string, string, string, []interface{}) error   
 func (s *c38SubPub) Publish(nameSpace, kind, param string, message interface{}) error {
 	if nameSpace == "group" && kind == "multicastMsg" {
 		if m, ok := message.(multicast.Message); ok {
-			s.w.c38Note('n', s.idx, s.gen, -1, 0, m.Origin, m.ID, m.GID)
+			s.w.c38Note('n', s.idx, s.gen, -1, 0, s.w.r.Now(), m.Origin, m.ID, m.GID)
 		}
 	}
 	return nil
@@ -140,22 +146,25 @@ type c38Streamer struct {
 	inner p2p.Streamer
 }
 
-func (s *c38Streamer) wrap(st p2p.Stream, err error, addr boson.Address, proto, stream string, via byte) (p2p.Stream, error) {
+func (s *c38Streamer) wrap(t0 time.Duration, st p2p.Stream, err error, addr boson.Address, proto, stream string, via byte) (p2p.Stream, error) {
 	if err != nil || proto != c38Proto || stream != c38Stream {
 		return st, err
 	}
-	return &c38SendStream{Stream: st, w: s.w, idx: s.idx, gen: s.gen, peer: s.w.c.Index(addr), via: via}, nil
+	return &c38SendStream{Stream: st, w: s.w, idx: s.idx, gen: s.gen, peer: s.w.c.Index(addr), via: via, began: t0}, nil
 }
 
 func (s *c38Streamer) NewStream(ctx context.Context, addr boson.Address, h p2p.Headers, proto, version, stream string) (p2p.Stream, error) {
+	t0 := s.w.r.Now()
 	st, err := s.inner.NewStream(ctx, addr, h, proto, version, stream)
-	return s.wrap(st, err, addr, proto, stream, 'd')
+	return s.wrap(t0, st, err, addr, proto, stream, 'd')
 }
 func (s *c38Streamer) NewRelayStream(ctx context.Context, addr boson.Address, h p2p.Headers, proto, version, stream string, midCall bool) (p2p.Stream, error) {
+	t0 := s.w.r.Now()
 	st, err := s.inner.NewRelayStream(ctx, addr, h, proto, version, stream, midCall)
-	return s.wrap(st, err, addr, proto, stream, 'r')
+	return s.wrap(t0, st, err, addr, proto, stream, 'r')
 }
 func (s *c38Streamer) NewConnChainRelayStream(ctx context.Context, addr boson.Address, h p2p.Headers, proto, version, stream string) (p2p.Stream, error) {
+	t0 := s.w.r.Now()
 	st, err := s.inner.NewConnChainRelayStream(ctx, addr, h, proto, version, stream)
 	if proto == c38Proto && stream == c38Stream {
 		s.w.r.Logf("n%d opens relayed multicast stream to %s: %s", s.idx, s.w.c.Name(addr), c28ErrStr(err))
@@ -163,16 +172,17 @@ func (s *c38Streamer) NewConnChainRelayStream(ctx context.Context, addr boson.Ad
 	if err == nil && proto == c38Proto && stream == c38Stream {
 		s.w.r.Count("probe_relayed_multicast")
 	}
-	return s.wrap(st, err, addr, proto, stream, 'r')
+	return s.wrap(t0, st, err, addr, proto, stream, 'r')
 }
 
 type c38SendStream struct {
 	p2p.Stream
-	w    *c38World
-	idx  int
-	gen  int
-	peer int
-	via  byte
+	w     *c38World
+	idx   int
+	gen   int
+	peer  int
+	via   byte
+	began time.Duration
 }
 
 func (s *c38SendStream) Write(b []byte) (int, error) {
@@ -181,7 +191,7 @@ func (s *c38SendStream) Write(b []byte) (int, error) {
 		c28Delimited(b, func(body []byte) {
 			var m mcpb.MulticastMsg
 			if proto.Unmarshal(body, &m) == nil && len(m.Origin) > 0 {
-				s.w.c38Note('s', s.idx, s.gen, s.peer, s.via, boson.NewAddress(m.Origin), m.Id, boson.NewAddress(m.Gid))
+				s.w.c38Note('s', s.idx, s.gen, s.peer, s.via, s.began, boson.NewAddress(m.Origin), m.Id, boson.NewAddress(m.Gid))
 			}
 		})
 	}
@@ -190,12 +200,18 @@ func (s *c38SendStream) Write(b []byte) (int, error) {
 
 // c38Note records a notification of node's subscriber / a send of node to peer
 // for the message (origin, id) and checks the at-most-once rules.
-func (w *c38World) c38Note(kind byte, node, gen, peer int, via byte, origin boson.Address, id uint64, gid boson.Address) {
+func (w *c38World) c38Note(kind byte, node, gen, peer int, via byte, began time.Duration, origin boson.Address, id uint64, gid boson.Address) {
 	o := w.c.Index(origin)
 	k := c38Key{kind, node, gen, peer, via, o, id}
 	now := w.r.Now()
 	w.mu.Lock()
 	prev, had := w.last[k]
+	rk := c38Key{kind, node, gen, -1, 0, o, id}
+	roundStart, hasRound := w.began[rk]
+	if !hasRound || now-roundStart > c38SendWindow {
+		roundStart = began
+		w.began[rk] = began
+	}
 	w.last[k] = now
 	w.seen[k] = true
 	w.mu.Unlock()
@@ -230,7 +246,14 @@ func (w *c38World) c38Note(kind byte, node, gen, peer int, via byte, origin boso
 	w.mu.Lock()
 	mv, wasMoved := w.moved[[2]int{node, peer}]
 	w.mu.Unlock()
-	if had && now-prev < c38SendWindow && wasMoved && now-mv < 2*time.Second {
+	// the connection to the peer changed after (or at most c38StaleWindow before)
+	// the node requested the first stream for this message (start of its
+	// forwarding round); a dropped peer stays in the connected list until the
+	// node's event loop gets to the disconnect event (seconds behind slow
+	// handshakes) and a relayed handshake moves it to kept in the meantime: the peer moved between the connected and the kept list
+	// while the forwarding round that made the first send was still running (a
+	// round through a slow node or a relay takes seconds)
+	if had && now-prev < c38SendWindow && wasMoved && mv > roundStart-c38StaleWindow {
 		w.r.Count("obs_dup_send_while_peer_changed_list")
 	} else if had && now-prev < c38SendWindow {
 		msg := fmt.Sprintf("n%d sent message (origin n%d, id %d, group %s) twice to n%d: at %v and %v; its groups now: %s", node, o, id, gid.String()[:6], peer, prev, now, w.listsOf(node))
@@ -291,6 +314,15 @@ func c38Gen(rng *rand.Rand, tier string) *gosim.Plan {
 	p.Params["groups"] = int64(1 + rng.Intn(2))
 	p.Params["discover"] = int64(rng.Intn(2))
 	p.Params["ordered_reset"] = 1
+	// a slow node (all its frames delayed): a handshake with it keeps the peer's
+	// event loop (Service.Start) busy for about three times the delay, so that
+	// connection events queue up behind it
+	p.Params["slow_node"] = -1
+	if rng.Intn(2) == 0 {
+		p.Params["slow_node"] = int64(rng.Intn(n))
+		p.Params["slow_ms"] = gosim.Pick(rng, 200, 500, 1000, 1500)
+	}
+	slow := int(p.Params["slow_node"])
 	groups := int(p.Params["groups"])
 	edge := map[[2]int]bool{}
 	add := func(a, b int) {
@@ -375,6 +407,49 @@ func c38Gen(rng *rand.Rand, tier string) *gosim.Plan {
 				p.Ops = append(p.Ops, gosim.Op{K: "sleep", A: []int64{c, d}})
 			}
 		}
+		if rng.Intn(100) < 60 {
+			// "flap": a connected group peer p of x is dropped while x's event loop
+			// is busy (handshake with the slow node, or a backlog of connect events)
+			// and p at once handshakes x again over a relay through r (join with x in
+			// the node list: x goes to p's known list, HandshakeAllKept reaches it
+			// through NewConnChainRelayStream). Plain ops; any subset is harmless.
+			c := int64(rng.Intn(clients))
+			x := rng.Intn(n)
+			pp := (x + 1 + rng.Intn(n-1)) % n
+			rr := -1
+			for _, cand := range rng.Perm(n) {
+				if cand != x && cand != pp && (cand != slow || rr < 0) {
+					rr = cand
+					if cand != slow {
+						break
+					}
+				}
+			}
+			g := int64(rng.Intn(groups))
+			kc, kp := int64(rng.Intn(3)), int64(rng.Intn(3))
+			ops := []gosim.Op{
+				{K: "dial", A: []int64{c, int64(x), int64(rr)}},
+				{K: "dial", A: []int64{c, int64(pp), int64(rr)}},
+				{K: "join", A: []int64{c, int64(pp), g, kc, kp, 1 << uint(x)}},
+				{K: "dial", A: []int64{c, int64(x), int64(pp)}},
+				{K: "sleep", A: []int64{c, gosim.Pick(rng, 300, 600, 2500)}},
+			}
+			busy := rr
+			if slow >= 0 && slow != x {
+				busy = slow
+			}
+			for i := 1 + rng.Intn(3); i > 0; i-- {
+				ops = append(ops, gosim.Op{K: "dial", A: []int64{c, int64(x), int64(busy)}})
+			}
+			ops = append(ops,
+				gosim.Op{K: "drop", A: []int64{c, int64(x), int64(pp)}},
+				gosim.Op{K: "join", A: []int64{c, int64(pp), g, kc, kp, 1 << uint(x)}},
+				gosim.Op{K: "sleep", A: []int64{c, gosim.Pick(rng, 200, 1000, 4000)}})
+			if rng.Intn(2) == 0 {
+				ops = append(ops, gosim.Op{K: "mcast", A: []int64{c, int64(x), g}})
+			}
+			p.Ops = append(p.Ops, ops...)
+		}
 		if ph < phases-1 {
 			p.Ops = append(p.Ops, gosim.Op{K: "barrier"})
 		}
@@ -410,6 +485,9 @@ func (w *c38World) node(i int64) *c28Node {
 // onBuild adds the multicast service to a (re)built node.
 func (w *c38World) onBuild(n *c28Node) error {
 	dev := w.r.Plan.P("discover", 0) == 0
+	if int64(n.idx) == w.r.Plan.P("slow_node", -1) {
+		n.Net.Slow = time.Duration(w.r.Plan.P("slow_ms", 0)) * time.Millisecond
+	}
 	n.mu.Lock()
 	gen := n.gen
 	n.mu.Unlock()
@@ -555,18 +633,34 @@ func (w *c38World) exec(phase int, o gosim.Op) {
 
 // c38CheckLists: at a settled point, per node and group the three lists are
 // pairwise disjoint and every connected peer is a direct neighbour.
-func (w *c38World) c38CheckLists(when string) {
+// settled == false: only the disjointness, which is an invariant of every
+// add/remove/prune transition (they run under the group's lock, and the hook
+// reads the three lists under that lock) and therefore holds at every instant;
+// "connected is a direct neighbour" is re-established by the asynchronous
+// disconnect event and is only checked at settled points.
+func (w *c38World) c38CheckLists(when string, settled bool) {
+	// "connected is a direct neighbour" is restored by the disconnect event, which
+	// waits behind whatever the node's event loop is doing (handshakes of up to
+	// 10 s each, more with a slow node): a stale entry is given three more
+	// periods of 30 s before it counts
+	for try := 0; settled && try < 3 && w.c38StaleConnected() != ""; try++ {
+		w.r.Count("probe_settle_extended")
+		time.Sleep(30 * time.Second)
+		gosim.Idle()
+	}
 	for _, n := range w.c.Nodes {
 		svc := w.service(n.idx)
 		_, _, nd := n.services()
 		for _, g := range svc.VerifGroups() {
-			w.r.Count("probe_lists_checked")
+			if settled {
+				w.r.Count("probe_lists_checked")
+			}
 			in := map[string]string{}
 			for _, l := range []struct {
 				name string
 				list []boson.Address
 			}{{"connected", g.Connected}, {"kept", g.Keep}, {"known", g.Known}} {
-				if len(l.list) > 0 {
+				if settled && len(l.list) > 0 {
 					w.r.Count("probe_list_" + l.name)
 				}
 				for _, a := range l.list {
@@ -578,13 +672,28 @@ func (w *c38World) c38CheckLists(when string) {
 				}
 			}
 			for _, a := range g.Connected {
-				if !nd.IsPeer(a) {
+				if settled && !nd.IsPeer(a) {
 					w.r.Violate("connected-not-neighbour", "%s: n%d group %s lists %s as connected, direct neighbours are %v",
 						when, n.idx, g.GID.String()[:8], w.c.Name(a), n.Neighbours())
 				}
 			}
 		}
 	}
+}
+
+// c38StaleConnected names the first connected entry that is not a direct neighbour.
+func (w *c38World) c38StaleConnected() string {
+	for _, n := range w.c.Nodes {
+		_, _, nd := n.services()
+		for _, g := range w.service(n.idx).VerifGroups() {
+			for _, a := range g.Connected {
+				if !nd.IsPeer(a) {
+					return fmt.Sprintf("n%d/%s", n.idx, w.c.Name(a))
+				}
+			}
+		}
+	}
+	return ""
 }
 
 func (w *c38World) settle() {
@@ -631,7 +740,7 @@ func (w *c38World) faults(done chan struct{}) {
 func c38Exec(r *gosim.Run) {
 	p := r.Plan
 	n := int(p.P("n", 4))
-	w := &c38World{r: r, last: map[c38Key]time.Duration{}, seen: map[c38Key]bool{}}
+	w := &c38World{r: r, last: map[c38Key]time.Duration{}, began: map[c38Key]time.Duration{}, seen: map[c38Key]bool{}}
 	w.c = c28NewCluster(r, 2, 10)
 	gc := simnet.NewNodeCacheFrom(w.c.Cache)
 	multicast.VerifSetCache(gc)
@@ -643,6 +752,26 @@ func c38Exec(r *gosim.Run) {
 			r.Violate("setup", "node %d: %v", i, err)
 		}
 	}
+	// sampler: every 100 simulated ms, at a quiescent point (no runnable
+	// goroutine, time not advanced), the three lists of every group are disjoint
+	stopSampler := make(chan struct{})
+	go func() {
+		for {
+			select {
+			case <-stopSampler:
+				return
+			case <-time.After(c38SamplePeriod):
+			}
+			gosim.Idle()
+			select {
+			case <-stopSampler:
+				return
+			default:
+			}
+			w.c38CheckLists(fmt.Sprintf("sample at %v", r.Now()), false)
+			r.Count("probe_lists_sampled")
+		}
+	}()
 	var faultsDone chan struct{}
 	r.RunPhases(p.Ops, w.exec, func(phase int) {
 		if phase == 0 {
@@ -654,13 +783,14 @@ func c38Exec(r *gosim.Run) {
 			return
 		}
 		w.settle()
-		w.c38CheckLists(fmt.Sprintf("after phase %d", phase))
+		w.c38CheckLists(fmt.Sprintf("after phase %d", phase), true)
 	})
 	if faultsDone != nil {
 		<-faultsDone
 	}
 	w.settle()
-	w.c38CheckLists("end")
+	close(stopSampler)
+	w.c38CheckLists("end", true)
 	if w.c.Cache.Unlabelled > 0 {
 		r.Violate("harness-unlabelled", "%d cache accesses from goroutines without a node label", w.c.Cache.Unlabelled)
 	}
